@@ -945,15 +945,31 @@ type f64 =
 | FPInf
 | FNInf
 
+type atom =
+| AInt of z
+| AStr of char list
+
+(** val atom_eqb : atom -> atom -> bool **)
+
+let atom_eqb a b =
+  match a with
+  | AInt x -> (match b with
+               | AInt y -> Z.eqb x y
+               | AStr _ -> false)
+  | AStr x -> (match b with
+               | AInt _ -> false
+               | AStr y -> eqb0 x y)
+
 type cell =
 | CNone
 | CFlt of f64
 | CInt of z
 | CBool of bool
 | CStr of char list
-| CTup of z * z
+| CTup of atom * atom
 | CPer of z * z
 | CTs of z
+| CTd of z
 
 (** val f64_eqb : f64 -> f64 -> bool **)
 
@@ -1000,7 +1016,7 @@ let cell_eqb a b =
                | _ -> false)
   | CTup (a0, b0) ->
     (match b with
-     | CTup (c, d) -> (&&) (Z.eqb a0 c) (Z.eqb b0 d)
+     | CTup (c, d) -> (&&) (atom_eqb a0 c) (atom_eqb b0 d)
      | _ -> false)
   | CPer (f, o) ->
     (match b with
@@ -1008,6 +1024,9 @@ let cell_eqb a b =
      | _ -> false)
   | CTs x -> (match b with
               | CTs y -> Z.eqb x y
+              | _ -> false)
+  | CTd x -> (match b with
+              | CTd y -> Z.eqb x y
               | _ -> false)
 
 (** val two53 : z **)
@@ -1108,12 +1127,15 @@ type pdt =
 | PObject
 | PPeriod of z
 | PDatetime
+| PTimedelta
 
 type ikind =
 | KRange
 | KIndex
 | KPeriodIndex
 | KDatetimeIndex
+| KMultiIndex
+| KTimedeltaIndex
 
 type skind =
 | SRange
@@ -1164,6 +1186,12 @@ let is_bool = function
 
 let is_ts = function
 | CTs _ -> true
+| _ -> false
+
+(** val is_td : cell -> bool **)
+
+let is_td = function
+| CTd _ -> true
 | _ -> false
 
 (** val is_per : z -> cell -> bool **)
@@ -1249,16 +1277,20 @@ let pd_infer cs = match cs with
                                 else Some (PFloat64, (map to_float_cell cs))
                            else if forallb is_ts cs
                                 then Some (PDatetime, cs)
-                                else (match c0 with
-                                      | CPer (f, _) ->
-                                        if forallb (is_per f) cs
-                                        then Some ((PPeriod f), cs)
-                                        else None
-                                      | _ ->
-                                        if (||) (existsb is_ts cs)
-                                             (existsb is_per_any cs)
-                                        then None
-                                        else Some (PObject, cs))
+                                else if forallb is_td cs
+                                     then Some (PTimedelta, cs)
+                                     else (match c0 with
+                                           | CPer (f, _) ->
+                                             if forallb (is_per f) cs
+                                             then Some ((PPeriod f), cs)
+                                             else None
+                                           | _ ->
+                                             if (||)
+                                                  ((||) (existsb is_ts cs)
+                                                    (existsb is_td cs))
+                                                  (existsb is_per_any cs)
+                                             then None
+                                             else Some (PObject, cs))
 
 (** val pd_index : span -> pindex option **)
 
@@ -1280,6 +1312,8 @@ let pd_index s =
                 Some { ikd = KPeriodIndex; idt = (PPeriod f); ilabels = cs }
               | PDatetime ->
                 Some { ikd = KDatetimeIndex; idt = PDatetime; ilabels = cs }
+              | PTimedelta ->
+                Some { ikd = KTimedeltaIndex; idt = PTimedelta; ilabels = cs }
               | _ -> Some { ikd = KIndex; idt = d; ilabels = cs })
            | None -> None))
      | _ :: _ ->
@@ -1291,6 +1325,8 @@ let pd_index s =
              Some { ikd = KPeriodIndex; idt = (PPeriod f); ilabels = cs }
            | PDatetime ->
              Some { ikd = KDatetimeIndex; idt = PDatetime; ilabels = cs }
+           | PTimedelta ->
+             Some { ikd = KTimedeltaIndex; idt = PTimedelta; ilabels = cs }
            | _ -> Some { ikd = KIndex; idt = d; ilabels = cs })
         | None -> None))
 
